@@ -166,6 +166,10 @@ func stressTCP(burst int, callers int, d time.Duration) StressRec {
 			_ = w.SetResponse(codes.Content, message.AppOctets, bytes.NewReader(body(p)))
 			return
 		}
+		if len(p) > 4 && p[:4] == "/nil" { // an answer without content (as a 2.02 / 2.04 has none)
+			_ = w.SetResponse(codes.Changed, message.TextPlain, nil)
+			return
+		}
 		_ = w.SetResponse(codes.Content, message.TextPlain, bytes.NewReader([]byte("content-for-"+p)))
 	})
 	C := mk(nil)
@@ -223,6 +227,10 @@ func stressTCP(burst int, callers int, d time.Duration) StressRec {
 				if k%4 == 3 {
 					path = fmt.Sprintf("/big%d/%d", c, k)
 					want = body(path)
+				}
+				if k%4 == 1 { // the content the peer produced for this request is: none
+					path = fmt.Sprintf("/nil%d/%d", c, k)
+					want = []byte{}
 				}
 				ctx, cancel := context.WithTimeout(context.Background(), 2*time.Second)
 				resp, err := C.CC.Get(ctx, path)
